@@ -1,6 +1,7 @@
 package props
 
 import (
+	"fmt"
 	"go/ast"
 	"go/types"
 
@@ -159,4 +160,106 @@ func checkSpecDocFirst(c *Ctx, rule string, pk *packages.Package) {
 	if n == 0 {
 		c.Anchor(rule, "codescan › readers of GenDecl.Doc for type specs", "not found")
 	}
+}
+
+// checkModelIdentity: a model is identified by its definition name — the first result of
+// entityDecl.Names(), which honours `swagger:model <name>` — never by its Go identifier (the
+// second result): two packages may each declare an `Item`, published as ItemV1 and ItemV2.
+// A set or map keyed by the Go name merges them, and one definition is never built although
+// `$ref`s to it are written.
+func checkModelIdentity(c *Ctx, rule string, pk *packages.Package) {
+	c.Rule(rule, "the Go name returned by entityDecl.Names() (second result) is never used as a map key: models are told apart by their definition name", 2)
+	info := pk.TypesInfo
+	n := 0
+	for _, fd := range load.AllFuncs(pk) {
+		if fd.Body == nil {
+			continue
+		}
+		fd := fd
+		ast.Inspect(fd.Body, func(m ast.Node) bool {
+			as, ok := m.(*ast.AssignStmt)
+			if !ok || len(as.Lhs) != 2 || len(as.Rhs) != 1 {
+				return true
+			}
+			call, ok := ast.Unparen(as.Rhs[0]).(*ast.CallExpr)
+			if !ok {
+				return true
+			}
+			fn := goan.Callee(info, call)
+			if fn == nil || fn.Name() != "Names" || load.RecvNameOf(fn) != "entityDecl." {
+				return true
+			}
+			n++
+			id, ok := as.Lhs[1].(*ast.Ident)
+			bad := ""
+			if ok && id.Name != "_" {
+				goName := info.ObjectOf(id)
+				ast.Inspect(fd.Body, func(k ast.Node) bool {
+					if ix, ok := k.(*ast.IndexExpr); ok {
+						if _, isMap := info.TypeOf(ix.X).Underlying().(*types.Map); isMap {
+							if kid, ok := ast.Unparen(ix.Index).(*ast.Ident); ok && info.Uses[kid] == goName {
+								bad = goan.ExprString(ix)
+							}
+						}
+					}
+					return true
+				})
+			}
+			c.Check(bad == "", rule, fmt.Sprintf("codescan.%s › Names() #%d", load.FuncName(fd), n), c.posOf(pk, as.Pos()), "the Go name is not a key",
+				"`"+bad+"` is keyed by the Go identifier of the declaration: two models that share it (an `Item` in each of two packages, published under different `swagger:model` names) are taken for one, the second is never built, and the document holds a `$ref` to a definition that does not exist")
+			return true
+		})
+	}
+	if n == 0 {
+		c.Anchor(rule, "codescan › calls of entityDecl.Names()", "not found")
+	}
+}
+
+// checkSpecYAMLExact: `generate spec -o x.yml` renders the document through its JSON form. The
+// generic value handed to the YAML marshaller is decoded from those bytes by a decoder that
+// keeps integers exact (yaml.Unmarshal reads JSON, which is YAML); encoding/json into
+// interface{} turns every number into a float64: `maxLength: 2000000` is written `2e+06`, and
+// an int64 above 2^53 comes out as another number — the constraints are no longer the declared ones.
+func checkSpecYAMLExact(c *Ctx, rule string) {
+	c.Rule(rule, "the function that renders the scanned document as YAML decodes the intermediate JSON with an integer-exact decoder, never with encoding/json into interface{}", 1)
+	prog := c.Prog("./cmd/swagger/commands/...")
+	pk := prog.ByPath[load.PkgCommands+"/generate"]
+	if pk == nil {
+		c.Anchor(rule, "package cmd/swagger/commands/generate", "not loaded")
+		return
+	}
+	fd := load.FuncDecl(pk, "marshalToYAMLFormat")
+	if fd == nil {
+		c.Anchor(rule, "generate.marshalToYAMLFormat", "not found")
+		return
+	}
+	info := pk.TypesInfo
+	bad, exact := "", false
+	ast.Inspect(fd.Body, func(n ast.Node) bool {
+		call, ok := n.(*ast.CallExpr)
+		if !ok || len(call.Args) != 2 {
+			return true
+		}
+		fn := goan.Callee(info, call)
+		if fn == nil {
+			return true
+		}
+		pt, ok := info.TypeOf(call.Args[1]).(*types.Pointer)
+		if !ok {
+			return true
+		}
+		it, ok := pt.Elem().Underlying().(*types.Interface)
+		if !ok || it.NumMethods() != 0 {
+			return true
+		}
+		switch goan.CalleeName(fn) {
+		case "encoding/json.Unmarshal":
+			bad = goan.ExprString(call)
+		case "gopkg.in/yaml.v3.Unmarshal", "gopkg.in/yaml.v2.Unmarshal":
+			exact = true
+		}
+		return true
+	})
+	c.Check(bad == "" && exact, rule, "generate.marshalToYAMLFormat › intermediate JSON decoded exactly", c.posOf(pk, fd.Pos()), "yaml.Unmarshal of the JSON bytes",
+		"the intermediate JSON is decoded with `"+bad+"`: every number becomes a float64, so in the YAML rendering only an integer of a million or more is written with an exponent and an int64 above 2^53 is rounded — the bounds, defaults and enum values of the document are not the annotated ones")
 }
